@@ -330,6 +330,28 @@ Definition live_expected (d : wdecl) (st : sstate) : N * N :=
                     acc (zip (wd_archs d) w)
      | None => acc end) (0, 0)%N (s_worlds st).
 
+
+(** C14, conversions per declared archetype: the observation lists, for each archetype in declaration
+    order, the outcome of the checked conversion into that archetype's handle type. *)
+Fixpoint conv_arch_laws (archs : list darch) (key ver aid : N) (rest : list N) : option (list N) :=
+  match archs with
+  | [] => Some rest
+  | a :: ar =>
+      if N.eqb (da_id a) aid then
+        match rest with
+        | 1%N :: k :: v :: id :: r =>
+            if N.eqb k key && N.eqb v ver && N.eqb id (da_id a) then conv_arch_laws ar key ver aid r else None
+        | _ => None
+        end
+      else match rest with 0%N :: r => conv_arch_laws ar key ver aid r | _ => None end
+  end.
+
+Fixpoint conv_find (archs : list darch) (aid : N) (i : N) : option (N * N) :=
+  match archs with
+  | [] => None
+  | a :: ar => if N.eqb (da_id a) aid then Some (i, da_id a) else conv_find ar aid (i + 1)%N
+  end.
+
 Definition spec_step (cfg : config) (d : wdecl) (qs : list (list qparam)) (st : sstate) (o : op) (obs : list N)
   : failure + sstate :=
   let archs := wd_archs d in
@@ -378,7 +400,38 @@ Definition spec_step (cfg : config) (d : wdecl) (qs : list (list qparam)) (st : 
           if N.eqb ver 0 then fail 14 1
           else if negb (N.eqb k2 key && N.eqb v2 ver) then fail 14 2
           else if negb (N.eqb aid (key mod 256)) then fail 14 3
-          else inr st
+          else
+            (* into_any / try_from per declared archetype: succeeds exactly for the archetype whose id
+               the handle carries, returning the same raw pair and that id *)
+            match conv_arch_laws archs key ver aid rest with
+            | None => fail 14 4
+            | Some rest1 =>
+                (* Select* enums: the first archetype with that id, the handle unchanged, and
+                   SelectArchetype::archetype_id() reporting the declared id *)
+                let sel := conv_find archs aid 0 in
+                match sel, rest1 with
+                | Some (a, id), a1 :: k3 :: v3 :: a2 :: id2 :: a3 :: _ =>
+                    if negb (N.eqb a1 a && N.eqb k3 key && N.eqb v3 ver) then fail 14 5
+                    else if negb (N.eqb a2 a && N.eqb id2 id) then fail 14 6
+                    else if negb (N.eqb a3 a) then fail 14 7
+                    else inr st
+                | None, 255%N :: 255%N :: 255%N :: _ => inr st
+                | _, _ => fail 14 8
+                end
+            end
+      | KDir, RRaw key ver, 1%N :: k2 :: v2 :: aid :: rest =>
+          if negb (N.eqb k2 key && N.eqb v2 ver) then fail 14 2
+          else if negb (N.eqb aid (key mod 256)) then fail 14 3
+          else
+            match conv_arch_laws archs key ver aid rest with
+            | None => fail 14 4
+            | Some rest1 =>
+                match conv_find archs aid 0, rest1 with
+                | Some (a, id), a1 :: k3 :: v3 :: _ => if negb (N.eqb a1 a && N.eqb k3 key && N.eqb v3 ver) then fail 14 5 else inr st
+                | None, 255%N :: _ => inr st
+                | _, _ => fail 14 8
+                end
+            end
       | _, _, _ => inr st
       end
   | _ =>
